@@ -184,6 +184,33 @@ theorem state_read_is_previous_round (L : Layout Host Head Body End) (r0 : Head)
   have h3 := loopProto_I1 L r0 b0 e0 h b
   omega
 
+/-- **`state_read_is_previous_round` for the head's own block.** Body operators chained directly
+    to the `Replay`/`Iterate` (no `Start` in between) are evaluated by the head thread while it is
+    `emitting`; while head replica `r` emits round `k = round r + 1` its host's state cell holds the
+    state of broadcast number `k - 1 = round r` — even if `r` is not the local leader and whatever the
+    other hosts and replicas are doing (barrier + I1). -/
+theorem head_block_read_is_previous_round (L : Layout Host Head Body End) (b0 : Body) (e0 : End)
+    {s : St Host Head Body End} (h : Reachable L s) (r : Head) (hp : s.phase r = .emitting) :
+    s.sidx (L.hostOfHead r) = s.round r := by
+  have inv := inv_reachable L r b0 h
+  have bi := barInv_reachable L h
+  have h1 := inv.sidx_fb (L.hostOfHead r)
+  have h2 := (inv.round_fb r).2 (by rw [hp]; decide)
+  have h3 := bi.bar_a r (by rw [hp]; decide)
+  by_cases hl : s.phase (L.leaderOf (L.hostOfHead r)) = .atBarrier
+  · -- the local leader already wrote broadcast `round r + 1`: impossible while `r` is still emitting
+    have h4 := bi.bar_b _ hl
+    rw [L.leader_host] at h4
+    have h5 := inv.fb_le_K (L.leaderOf (L.hostOfHead r))
+    have := inv.K_le_got e0
+    have := inv.got_le_sent e0
+    have := inv.sent_le_fars e0 b0
+    have := inv.fars_le_round b0 r
+    omega
+  · have h4 := bi.bar_a _ hl
+    rw [L.leader_host] at h4
+    omega
+
 /-- the state cell is never written while some body replica of that host is inside a round: a write
     of broadcast `j` on host `h` needs `K ≥ j`, hence every body replica has already emitted the
     `FlushAndRestart` of round `j` (no data race between `set` and `get`, iteration/mod.rs:60-80) -/
